@@ -69,6 +69,10 @@ def cases_for(name, fsize, tier, rng):
     for off in range(0, fsize - 3, 4):
         for v in [0, 1, 0x7fffffff, 0x80000000, 0xffffffff]:
             out.append((name, "w32", off, v))
+    # several adjacent fields wrong at once (header size + object size, object size + type, ...): zeroed windows
+    for off in range(0, fsize - 8, 4):
+        for ln in ((8, 12) if tier == "thorough" or (off // 4) % 2 == 0 else (8,)):
+            out.append((name, "zfill", off, ln))
     for n in range(0, fsize + 1, 1 if tier == "thorough" else 3):
         out.append((name, "cut", n, 0))
     for off in range(144, fsize - 64, 16 if tier == "thorough" else 48):
@@ -88,7 +92,8 @@ def run(rep, tier, seed):
                        "DeadlockFree, Termination and delivery invariants for all interleavings, edge-replayed. "
                        "Enumerated mutants of valid files (library-built with 9 object kinds, level 0 and 6, and reference "
                        "logs): every single-byte substitution with boundary values, aligned 16/32-bit overwrites, every "
-                       "truncation, block duplication/deletion, seeded random 16/32-bit values - each opened/read/closed by "
+                       "truncation, zeroed 8/12-byte windows (adjacent fields wrong together), block duplication/deletion, seeded random "
+                       "16/32-bit values - each opened/read/closed by "
                        "the real File in an ASan+UBSan build under the controlled scheduler with a 256 MiB allocation cap; "
                        "a sanitizer report, an escaping exception, a dead-/live-lock or an endless object stream is a "
                        "violation")
